@@ -128,3 +128,60 @@ def param_roots(f, expr, _depth=0):
                 h = h.outer
         del lam
     return roots
+
+
+def expand_aliases(f, node, depth=4, keep=()):
+    """
+    A copy of expression `node` in which every local of f that has exactly ONE definition in the function, by
+    a plain expression (not a loop target, not an augmented assignment), is replaced by that expression,
+    recursively to `depth`. Lets a rule compare `abs(n_args - len(cur_defaults))` with
+    `abs(len(getattr(a, x)) - len(getattr(a, y)))` after someone named the sub-expressions.
+    Names in `keep` and parameters are left alone.
+    """
+    import copy
+
+    single = {}
+    counts = {}
+    for n in iter_own(f.node):
+        if isinstance(n, (ast.Assign, ast.AnnAssign)) and n.value is not None:
+            tg = n.targets if isinstance(n, ast.Assign) else [n.target]
+            for t in tg:
+                for nm in stored_names(t):
+                    counts[nm] = counts.get(nm, 0) + 1
+                if isinstance(t, ast.Name):
+                    single[t.id] = n.value
+                elif (
+                    isinstance(t, (ast.Tuple, ast.List))
+                    and isinstance(n.value, (ast.Tuple, ast.List))
+                    and len(t.elts) == len(n.value.elts)
+                    and not any(isinstance(x, ast.Starred) for x in t.elts + n.value.elts)
+                ):
+                    # a, b = x, y  — element-wise (the right-hand sides are evaluated before either name is bound, so
+                    # this is only an alias when no right-hand side mentions a left-hand name other than its own)
+                    lhs = {x.id for x in t.elts if isinstance(x, ast.Name)}
+                    for te, ve in zip(t.elts, n.value.elts):
+                        if isinstance(te, ast.Name) and not ({y.id for y in ast.walk(ve) if isinstance(y, ast.Name)} & (lhs - {te.id})):
+                            single[te.id] = ve
+        elif isinstance(n, (ast.AugAssign, ast.NamedExpr)):
+            for nm in stored_names(n.target):
+                counts[nm] = counts.get(nm, 0) + 2
+        elif isinstance(n, (ast.For, ast.AsyncFor, ast.comprehension)):
+            for nm in stored_names(n.target):
+                counts[nm] = counts.get(nm, 0) + 2
+        elif isinstance(n, (ast.With, ast.AsyncWith)):
+            for it in n.items:
+                if it.optional_vars is not None:
+                    for nm in stored_names(it.optional_vars):
+                        counts[nm] = counts.get(nm, 0) + 2
+    ok = {nm: v for nm, v in single.items() if counts.get(nm) == 1 and nm not in f.params and nm not in keep}
+
+    class Sub(ast.NodeTransformer):
+        def __init__(self, d):
+            self.d = d
+
+        def visit_Name(self, n):
+            if isinstance(n.ctx, ast.Load) and n.id in ok and self.d > 0:
+                return Sub(self.d - 1).visit(copy.deepcopy(ok[n.id]))
+            return n
+
+    return Sub(depth).visit(copy.deepcopy(node))
